@@ -149,6 +149,9 @@ func (fr *Frame) call(site ssa.Instruction, c *ssa.CallCommon, reach T, st *Stat
 	ord := fr.callOrd[site]
 	fr.ghostAt("call", ord, name, "before", reach, st, fr.argBindings(c, args))
 	var res []T
+	if _, isB := c.Value.(*ssa.Builtin); fc == nil && key != "" && !isB && !c.IsInvoke() && c.StaticCallee() == nil && ex.fc.DynOpaque {
+		key = "" // a function value read from a struct field, without a contract of its own: a dynamic call
+	}
 	switch {
 	case fc != nil:
 		res = fr.applyContract(site, fc, key, c, sig, args, reach, st)
@@ -159,6 +162,7 @@ func (fr *Frame) call(site ssa.Instruction, c *ssa.CallCommon, reach T, st *Stat
 		if ci := fr.findClosure(c.Value); ci != nil {
 			res = fr.inline(site, ci, c.Args, reach, st)
 		} else if ex.fc.DynOpaque {
+			fr.safety("nil", site, reach, not(eq(fr.val(c.Value), tNil)), "call of nil function value "+c.Value.Name())
 			ex.assumed["function value supplied by the caller is called as opaque (assumed without effect on the verified heap) at "+ex.pos(site.Pos())] = true
 			for i := 0; i < sig.Results().Len(); i++ {
 				rt := sig.Results().At(i).Type()
